@@ -1,4 +1,5 @@
 import Proofs.TermFill
+import Proofs.TruncTotal
 /-! `truncate_str_impl` and `pad_panel_line_to_width` keep a line self-contained: truncation
 copies every escape sequence and only drops or replaces text. -/
 namespace LineProofs
@@ -76,7 +77,13 @@ theorem truncText_ok (dw : Nat) (fill : Option Char) (hf : ∀ f, fill = some f 
           simp only [List.mem_singleton]
           exact fun e => hf f rfl e.symm
         · split at h
-          · cases h
+          · split at h
+            · cases h
+            · simp at h; obtain ⟨rfl, _⟩ := h
+              intro g' hg'
+              obtain ⟨_, rfl⟩ := List.mem_replicate.mp hg'
+              simp only [List.mem_singleton]
+              exact fun e => hf f rfl e.symm
           · simp at h; obtain ⟨rfl, _⟩ := h; simp
     · cases hr : truncText dw fill (used + g.w) gs with
       | none => simp [hr] at h
